@@ -36,6 +36,8 @@ A_MENU = [
     ('4 atoms, no tables, extra columns', lambda: mk(4, False, xf=True), False),
     ('3 atoms, coefficient tables but no terms', lambda: coeff_only(3), True),
     ('4 atoms, tables, one type per kind', lambda: mk(4, True, two_types=False), True),
+    ('4 atoms, tables, bonds + impropers only', lambda: mk(4, True, kinds=['bond', 'improper']), True),
+    ('4 atoms, no tables, angles + dihedrals only', lambda: mk(4, False, kinds=['angle', 'dihedral']), False),
 ]
 B_MENU = [
     ('1 atom, tables', lambda: mk(1, True, 'xy', q0=-0.3, shift=7.0), True),
@@ -47,6 +49,10 @@ B_MENU = [
     ('2 atoms, no tables', lambda: mk(2, False, 'xy', q0=-0.3, shift=7.0), False),
     ('3 atoms, no tables, extra columns', lambda: mk(3, False, 'xy', q0=-0.3, shift=7.0, xf=True), False),
     ('4 atoms, no tables', lambda: mk(4, False, 'xy', q0=-0.3, shift=7.0), False),
+    ('4 atoms, impropers only, tables', lambda: mk(4, True, 'xy', q0=-0.3, shift=7.0, kinds=['improper']), True),
+    ('3 atoms, angles only, tables', lambda: mk(3, True, 'xy', q0=-0.3, shift=7.0, kinds=['angle']), True),
+    ('4 atoms, dihedrals + impropers only, no tables', lambda: mk(4, False, 'xy', q0=-0.3, shift=7.0, kinds=['dihedral', 'improper']), False),
+    ('4 atoms, angles + impropers only, tables', lambda: mk(4, True, 'xy', q0=-0.3, shift=7.0, kinds=['angle', 'improper']), True),
 ]
 MODES = ['default', 'offsets', 'twice', 'twice-mapped', 'shared']
 
@@ -74,7 +80,7 @@ def plan(tier, seed):
                 continue
             for bi, (bn, bmk, btab) in enumerate(B_MENU):
                 nb = len(bmk())
-                if nb > maxb or (atab is not None and atab != btab):
+                if (nb > maxb and 'only' not in bn) or (atab is not None and atab != btab):
                     continue
                 for rev in (0, 1):
                     for m in maps(nb, na):
